@@ -93,7 +93,7 @@ pub fn eager_echo_client(builder: ClientBuilder) -> Client {
 }
 
 /// A transport whose `send` fails on the k-th message and whose `close` takes a while (as a real socket's does).
-pub struct FailingSender { pub inner: mpsc::UnboundedSender<String>, pub fail_at: usize, pub count: usize }
+pub struct FailingSender { pub inner: mpsc::UnboundedSender<String>, pub fail_at: usize, pub count: usize, pub close_fails: bool }
 impl TransportSenderT for FailingSender {
 	type Error = MockErr;
 	fn send(&mut self, msg: String) -> impl Future<Output = Result<(), Self::Error>> + Send {
@@ -105,14 +105,15 @@ impl TransportSenderT for FailingSender {
 	fn close(&mut self) -> impl Future<Output = Result<(), Self::Error>> + Send {
 		async move {
 			tokio::time::sleep(Duration::from_millis(50)).await;
-			Ok(())
+			if self.close_fails { Err(MockErr("close failed: socket already shut down".into())) } else { Ok(()) }
 		}
 	}
 }
-pub fn failing_client(builder: ClientBuilder, fail_at: usize) -> (Client, Peer) {
+pub fn failing_client(builder: ClientBuilder, fail_at: usize) -> (Client, Peer) { failing_client2(builder, fail_at, false) }
+pub fn failing_client2(builder: ClientBuilder, fail_at: usize, close_fails: bool) -> (Client, Peer) {
 	let (tx_out, rx_out) = mpsc::unbounded_channel();
 	let (tx_in, rx_in) = mpsc::unbounded_channel();
-	let c = builder.build_with_tokio(FailingSender { inner: tx_out, fail_at, count: 0 }, MockReceiver(rx_in));
+	let c = builder.build_with_tokio(FailingSender { inner: tx_out, fail_at, count: 0, close_fails }, MockReceiver(rx_in));
 	(c, Peer { from_client: rx_out, to_client: tx_in })
 }
 
